@@ -22,6 +22,8 @@ from .common import Check
 LOOKUPS: set = set()
 FILTERS: set = set()
 TAGS: set = set()
+TAG_SITES: set = set()       # (source text, tag name, start, stop) of every tag node that rendered
+FILTER_SITES: set = set()    # (source text, filter name, start, stop) of every filter that was applied
 _PATCHED = False
 
 
@@ -69,6 +71,7 @@ def patch_nodes():
         tok = getattr(node, "token", None)
         if tok is not None and not isinstance(node, inner) and (is_tag_token(tok) or is_lines_token(tok)):
             TAGS.add(tok.name)
+            TAG_SITES.add((tok.source, tok.name, tok.start, tok.stop))
 
     def render(self, context, buffer):
         note(self)
@@ -80,6 +83,19 @@ def patch_nodes():
 
     ast.Node.render = render
     ast.Node.render_async = render_async
+    from liquid2.builtin.expressions import Filter
+    f_eval, f_eval_async = Filter.evaluate, Filter.evaluate_async
+
+    def evaluate(self, left, context):
+        FILTER_SITES.add((self.token.source, self.name, self.token.start, self.token.stop))
+        return f_eval(self, left, context)
+
+    async def evaluate_async(self, left, context):
+        FILTER_SITES.add((self.token.source, self.name, self.token.start, self.token.stop))
+        return await f_eval_async(self, left, context)
+
+    Filter.evaluate = evaluate
+    Filter.evaluate_async = evaluate_async
     _PATCHED = True
 
 
@@ -209,7 +225,7 @@ def judge(rec, opts):
         out.append((f"analyze-async-raised-{type(e).__name__}:{where}", {"templates": templates}))
     out += [(f"{sig}:{where}", dict(det, templates=templates)) for sig, det in span_faults(a, templates)[:2]]
     for mode in ("sync", "async"):
-        LOOKUPS.clear(); FILTERS.clear(); TAGS.clear()
+        LOOKUPS.clear(); FILTERS.clear(); TAGS.clear(); TAG_SITES.clear(); FILTER_SITES.clear()
         try:
             if mode == "sync":
                 t.render()
@@ -233,6 +249,23 @@ def judge(rec, opts):
         t_missed = sorted(TAGS - set(a.tags))
         if t_missed:
             out.append((f"tag-not-reported:{where}", {"templates": templates, "executed": t_missed, "reported": sorted(a.tags), "mode": mode}))
+        # ... each at its own location: the span of the tag / filter name in the template it stands in
+        by_source: dict = {}
+        for tname, src in templates.items():
+            by_source.setdefault(src, []).append(tname)
+        for kind, sites, table in (("tag", TAG_SITES, a.tags), ("filter", FILTER_SITES, a.filters)):
+            lost = []
+            for source, name, start, stop in sorted(sites):
+                names = by_source.get(source)
+                if not names or name not in table:
+                    continue            # (a missing name is reported above)
+                if kind == "filter" and set([name]) <= ternary_left_filters(env, templates):
+                    continue            # the listed known finding
+                have = {(sp.template_name, sp.start, sp.end) for sp in table[name]}
+                if not any((tn, start, stop) in have for tn in names):
+                    lost.append([names[0], name, start, stop])
+            if lost:
+                out.append((f"{kind}-location-not-reported:{where}", {"templates": templates, "executed_at": lost[:5], "mode": mode}))
         if out:
             break
     return out[:3]
@@ -240,7 +273,8 @@ def judge(rec, opts):
 
 FOCUSES = [("MC_Scopes", "scopes", {}, 2, 3), ("MC_Flow", "flow", {}, 1, 2), ("MC_Lambda", "lambda", {}, 4, 4),
            ("MC_Sites", "sites", {}, 2, 3), ("MC_Exprs", "exprs", {}, 1, 2), ("MC_Loops", "loops-single", {"Variant": '"single"'}, 1, 1),
-           ("MC_Undef", "undef-single", {"Variant": '"single"'}, 1, 1), ("MC_Attr", "attr-all", {"Variant": '"all"'}, 1, 1)]
+           ("MC_Undef", "undef-single", {"Variant": '"single"'}, 1, 1), ("MC_Attr", "attr-all", {"Variant": '"all"'}, 1, 1),
+           ("MC_Static", "static", {}, 3, 3)]
 
 
 def judge_globals(rec, opts):
@@ -262,7 +296,7 @@ def judge_globals(rec, opts):
 
 
 MODEL_FOCUSES = [("MC_Scopes", "scopes-g", {}, 2, 3), ("MC_Flow", "flow-g", {}, 1, 2), ("MC_Lambda", "lambda-g", {}, 4, 4),
-                 ("MC_Exprs", "exprs-g", {}, 1, 1), ("MC_Loops", "loops-g", {"Variant": '"single"'}, 1, 1)]
+                 ("MC_Exprs", "exprs-g", {}, 1, 1), ("MC_Loops", "loops-g", {"Variant": '"single"'}, 1, 1), ("MC_Static", "static-g", {}, 3, 3)]
 
 
 def check(tier: str) -> int:
